@@ -3,6 +3,7 @@ FILT = "hippolyzer/lib/proxy/message_filter.py"
 LOGR = "hippolyzer/lib/proxy/message_logger.py"
 MSG = "hippolyzer/lib/base/message/message.py"
 DTYPES = "hippolyzer/lib/base/datatypes.py"
+LLSDF = "hippolyzer/lib/base/llsd.py"
 
 _TRY_OLD = '''        try:
             if not operator:
@@ -440,6 +441,20 @@ VARIANTS = [
     {"name": "P R9 whitelist spelled as two isinstance tests", "file": MSG, "expect": "silent",
      "old": "if isinstance(value, (enum.IntEnum, enum.IntFlag)):",
      "new": "if isinstance(value, enum.IntEnum) or isinstance(value, enum.IntFlag):"},
+    # ---- round 7 mechanisms
+    {"name": "R11 visitor unboxes the literal when it builds the comparison node", "file": FILT, "expect": "C18.R11",
+     "old": "return MessageFilterNode(tuple(children[0]), children[1], children[2])",
+     "new": "return MessageFilterNode(tuple(children[0]), children[1],\n"
+            "                                 children[2].value if isinstance(children[2], LiteralValue) else children[2])"},
+    {"name": "P R11 visitor unpacks children into locals", "file": FILT, "expect": "silent",
+     "old": "        return MessageFilterNode(tuple(children[0]), children[1], children[2])",
+     "new": "        lhs, op, rhs = children\n        return MessageFilterNode(tuple(lhs), op, rhs)"},
+    {"name": "R12 notation formatter prints reals with six decimals", "file": LLSDF, "expect": "C18.R12",
+     "old": "        return super().STRING(v).replace(b\"\\n\", b\"\\\\n\")\n",
+     "new": "        return super().STRING(v).replace(b\"\\n\", b\"\\\\n\")\n\n    def REAL(self, v):\n        return f\"r{v:.6f}\".encode(\"utf8\")\n"},
+    {"name": "P R12 notation formatter prints reals with 17 significant digits", "file": LLSDF, "expect": "silent",
+     "old": "        return super().STRING(v).replace(b\"\\n\", b\"\\\\n\")\n",
+     "new": "        return super().STRING(v).replace(b\"\\n\", b\"\\\\n\")\n\n    def REAL(self, v):\n        return b\"r%.17g\" % v\n"},
     # ---- documented limits
     {"name": "X bare selector matches on the raw value instead of truthiness", "file": LOGR, "expect": "miss",
      "old": "                return bool(val)\n", "new": "                return val is not None\n"},
